@@ -66,6 +66,9 @@ func init() {
 		"strings.Join":      strJoin,
 		"strings.Repeat":    strRepeat,
 
+		"maps.clone": mapsClone,
+		"maps.Clone": mapsClone,
+
 		"fmt.Sprintf": fmtSprintf,
 		"fmt.Errorf":  fmtErrorf,
 		"fmt.Sprint":  fmtSprint,
@@ -400,6 +403,29 @@ func strRepeat(p *Path, _ *frame, _ *ssa.Function, args []Value) Value {
 }
 
 // ---------------------------------------------------------------- fmt / errors / strconv
+
+// mapsClone models maps.Clone / the runtime's maps.clone: a shallow copy.
+func mapsClone(p *Path, _ *frame, _ *ssa.Function, args []Value) Value {
+	var m *Map
+	switch x := args[0].(type) {
+	case *Map:
+		m = x
+	case Iface:
+		m, _ = x.V.(*Map)
+	}
+	if m == nil {
+		return (*Map)(nil)
+	}
+	c := &Map{}
+	for i := range m.keys {
+		c.keys = append(c.keys, copyVal(m.keys[i]))
+		c.vals = append(c.vals, copyVal(m.vals[i]))
+	}
+	if _, ok := args[0].(Iface); ok {
+		return Iface{T: args[0].(Iface).T, V: c}
+	}
+	return c
+}
 
 func (p *Path) mkError(msg Str) Value {
 	e := p.w.eng
